@@ -162,7 +162,10 @@ contract(F + '::LinesearchSolver._enforce_bounds', ['C10'],
              'implies(%s, all(le(abs(%s[i] - (old(%s[i]) - alpha*old(step._data[i]))), abs(alpha*old(step._data[i]))) for i in range(n)))' % (HAS, U, U),
              'implies(not %s, all(%s[i] == old(%s[i]) and step._data[i] == old(step._data[i]) for i in range(n)))' % (HAS, U, U),
              'implies(all((%s is None or %s[j] <= old(%s[j])) and (%s is None or old(%s[j]) <= %s[j]) for j in range(n)), '
-             'all(%s[i] == old(%s[i]) and step._data[i] == old(step._data[i]) for i in range(n)))' % (LB, LB, U, UB, U, UB, U, U)],
+             'all(%s[i] == old(%s[i]) and step._data[i] == old(step._data[i]) for i in range(n)))' % (LB, LB, U, UB, U, UB, U, U),
+             # iterate and step stay consistent: every entry either has a zero step (it was put on a bound: wall) or is the
+             # starting point plus alpha times the NEW step (what later backtracking along the step relies on)
+             'all(step._data[i] == 0 or approx(%s[i] - alpha*step._data[i], old(%s[i]) - alpha*old(step._data[i])) for i in range(n))' % (U, U)],
          modifies=['self._system()._outputs._data', 'self._system()._doutputs._data', 'step._data'],
          native=native_solver('BoundsEnforceLS', True),
          canaries=[('scalar method dispatched to nothing', ("elif method == 'scalar':", "elif method == 'scalarx':"), 'post')])
@@ -229,12 +232,61 @@ contract(F + '::ArmijoGoldsteinLS._iter_initialize', ['C10'],
              'all(le(0, (%s[i] - old(%s[i])) * old(self._system()._doutputs._data[i])) for i in range(n))' % (U, U),
              'all(le(abs(%s[i] - old(%s[i])), abs(%s * old(self._system()._doutputs._data[i]))) for i in range(n))' % (U, U, AL),
              'implies(not %s, all(%s[i] == old(%s[i]) + %s * old(self._system()._doutputs._data[i]) for i in range(n)))' % (HAS, U, U, AL),
-             'self.alpha == %s' % AL],
+             'self.alpha == %s' % AL,
+             # consistency handed on to the backtracking loop: zero step, or start + alpha * (new step)
+             'all(self._system()._doutputs._data[i] == 0 or approx(%s[i] - %s * self._system()._doutputs._data[i], old(%s[i])) for i in range(n))' % (U, AL, U)],
          modifies=['self._system()._outputs._data', 'self._system()._doutputs._data', 'self._system()._residuals._data',
                    'self.alpha', 'self._phi0', 'self._dir_derivative', 'self._analysis_error_raised'],
          assumed=AG_ASSUMED, inline=VEC_INLINE, native=native_ag, may_raise=['AnalysisError'],
          canaries=[('enforcement called with the default step length instead of alpha',
                     ('self._enforce_bounds(step=du, alpha=alpha)', 'self._enforce_bounds(step=du, alpha=1.0)'), 'pre@callee')])
+
+
+# ArmijoGoldsteinLS._solve: the backtracking loop only ever moves the iterate along the (enforced) step between the
+# starting point and the point accepted by _iter_initialize, so every bounded entry stays within its bounds and no entry
+# moves against its Newton step or beyond alpha times it.  Loop invariant (inductive cut, any number of backtracks):
+#   0 <= self.alpha <= alpha0;  u[i] == u0[i] + self.alpha * du[i] or du[i] == 0;  u within bounds;  the two "along the
+#   step" facts.  _iter_initialize enters through its contract above; sub-solves (hybrid Newton) are switched off.
+DU = 'du._data'
+OLD_DU = 'old(self._system()._doutputs._data[i])'
+AG_INV = [
+    '0 <= self.alpha and self.alpha <= %s' % AL,
+    'all(%s[i] == 0 or approx(%s[i] - self.alpha * %s[i], old(%s[i])) for i in range(n))' % (DU, U, DU, U),
+    'all(le(0, %s[i] * %s) for i in range(n))' % (DU, OLD_DU),
+    'all(le(abs(%s[i]), abs(%s)) for i in range(n))' % (DU, OLD_DU),
+    'all(le(0, (%s[i] - old(%s[i])) * %s) for i in range(n))' % (U, U, OLD_DU),
+    'all(le(abs(%s[i] - old(%s[i])), abs(%s * %s)) for i in range(n))' % (U, U, AL, OLD_DU),
+] + within(U)
+
+
+def ag_solve_spec():
+    sp = ag_spec()
+    sp.attrs['options'] = DictT({'bound_enforcement': OneOf('vector', 'scalar', 'wall'), 'print_bound_enforce': False,
+                                 'alpha': Real(), 'retry_on_analysis_error': OneOf(True, False), 'maxiter': Int(0, None),
+                                 'rho': Real(), 'method': OneOf('Armijo', 'Goldstein'), 'c': Real()})
+    sp.attrs['_do_subsolve'] = False
+    return sp
+
+
+AGS_ASSUMED = dict(AG_ASSUMED)
+AGS_ASSUMED.update({
+    'self._stopping_criteria': Assumed(returns=Bool(), note='sufficient-decrease test on residual norms: any outcome'),
+    "with Recording": (Assumed(returns=OpaqueT('rec')), Assumed()),
+})
+
+contract(F + '::ArmijoGoldsteinLS._solve', ['C10'],
+         dict(self=ag_solve_spec()),
+         requires=SETUP_INV + within(U) + ['%s > 0' % AL, "0 <= self.options['rho'] and self.options['rho'] <= 1"],
+         ensures=within(U) + [
+             'all(le(0, (%s[i] - old(%s[i])) * old(self._system()._doutputs._data[i])) for i in range(n))' % (U, U),
+             'all(le(abs(%s[i] - old(%s[i])), abs(%s * old(self._system()._doutputs._data[i]))) for i in range(n))' % (U, U, AL)],
+         modifies=['self._system()._outputs._data', 'self._system()._doutputs._data', 'self._system()._residuals._data',
+                   'self.alpha', 'self._phi0', 'self._dir_derivative', 'self._analysis_error_raised', 'self._iter_count'],
+         invariants={'loop0': AG_INV},
+         loop_modifies={'loop0': ['u._data[0]', 'system._residuals._data[0]', 'self.alpha', 'self._iter_count', 'self._analysis_error_raised']},
+         assumed=AGS_ASSUMED, inline=VEC_INLINE | {'_update_step_length_parameter', '_single_iteration'}, may_raise=['AnalysisError'],
+         name=F + '::ArmijoGoldsteinLS._solve', defs={'opaque_classes': ['Recording'], 'timeout_ms': 40000},
+         canaries=[('backtracking moves along the step with the wrong sign', ('u.add_scal_vec(self.alpha - alpha_old, du)', 'u.add_scal_vec(alpha_old - self.alpha, du)'), 'inv-step')])
 
 
 # ---------------------------------------------------------------------------------------------
